@@ -378,7 +378,7 @@ def export_case(draw):
         if draw(st.integers(0, 2)) == 0:
             # times whose product with the samplerate lands on or a hair below an integer (k/sr, decimals)
             k1 = draw(st.integers(0, 200000))
-            a = draw(st.one_of(st.just(k1 / sr), st.sampled_from([0.7, 2.3, 0.29, 0.1, 1.1, 4.35, 0.57])))
+            a = draw(st.one_of(st.just(k1 / sr), st.sampled_from([0.7, 2.3, 0.29, 0.1, 1.1, 4.35, 0.57]), st.integers(0, 90000).map(lambda k: k / 1000)))
             b = a + draw(st.one_of(st.integers(1, 50000).map(lambda k: k / sr), st.sampled_from([0.7, 2.3, 0.29, 0.1])))
             g = {"type": "TimeInterval", "coordinates": [a, b]} if draw(st.booleans()) else {"type": "BoundingBox", "coordinates": [a, 100.0, b, 900.0]}
         else:
@@ -387,6 +387,8 @@ def export_case(draw):
             g = {"type": g["type"], "coordinates": g["coordinates"]}
         items.append({"geometry": g, "tags": [[draw(st.sampled_from(KEYS)), draw(st.sampled_from(["a", "b", "c"]))] for _ in range(draw(st.integers(0, 3)))]})
     return {
+        # the export never looks at the time expansion: sample indices and the Nyquist cap follow Recording.samplerate whatever it is
+        "te": draw(st.sampled_from([1.0, 1.0, 10.0, 2.5, 0.5, 3.0, 20.0])),
         "sr": sr, "items": items, "fmt": draw(st.sampled_from(["segment", "bbox", "sequence", "annotation_bbox", "annotation_seq"])),
         "cast": draw(st.sampled_from([None, True, False])), "ignore_errors": draw(st.sampled_from([None, True, False])),
         "raise_on_time": draw(st.sampled_from([None, True, False])), "value_only": draw(st.sampled_from([None, True])), "index": draw(st.sampled_from([None, 0, -1, 5, -7])),
@@ -401,7 +403,7 @@ def check_export(spec, ctx):
     from soundevent.io import crowsetta as sec
 
     sr = spec["sr"]
-    rec = _recording(sr, 1.0)
+    rec = _recording(sr, spec.get("te", 1.0))
     anns = []
     for i, it in enumerate(spec["items"]):
         g = data.geometry_validate(it["geometry"], mode="dict") if it["geometry"] else None
